@@ -110,7 +110,6 @@ PROPS["C18"] = {
     "harness": ["c18"],
     "both_profiles": True,
     "t1_facts": ["dc:", "Dc.lean"],
-    "known_keys_expected": ["c18/start-time-add-overflow"],
     "modelled": "SubDeviceGroup::configure_dc_sync (reference check, dc_devices filter, u32 range checks, start-time rounding with "
                 "the unchecked u64 +,/,*, the five register writes per device, Sync01 arm with its u64 conversion, HasDc incl. the "
                 "`as u64` truncation of the shift) and the tail of tx_rx_dc (time % period, (period - offset) + shift), both in "
@@ -127,7 +126,7 @@ PROPS["C18"] = {
         "every datagram is answered with working counter 1 (network errors/timeouts are other properties)",
         "the group is built by the hook verif::dc::dc_group with Default + SubDeviceGroupHandle::push as MainDevice::init does; "
         "the reference address is stored through MainDevice::verif_set_dc_reference",
-        "start_time_window is proved for reference time + delay < 2^64 only (known finding c18/start-time-add-overflow)",
+        "reference time + delay >= 2^64 is rejected with IntegerTypeConversion before any write (fix of c18/start-time-add-overflow); start_time_window covers both cases",
         "shift <= 2^33 ns in cycle_arithmetic_quantifier (the property's 'and just above'); cycle_arithmetic itself needs only period + shift < 2^64",
     ],
 }
@@ -135,13 +134,11 @@ PROPS["C18"] = {
 MANIFEST_TEXT["C18"] = {
     "text": "Theorems over all inputs and both build modes: only_dc_devices_touched (every write, whatever the outcome, goes to a "
             "device that supports DC and enabled DcSync) and every_dc_device_configured; configure_ok (exact write sequence and "
-            "HasDc for every in-range configuration); start_time_window_partial (start % period = 0, ref+delay-period < start <= "
-            "ref+delay, written as 8 LE bytes to 0x0990) for 1 <= period <= u32::MAX, delay <= u32::MAX, ref+delay < 2^64; "
+            "HasDc for every in-range configuration); start_time_window (for 1 <= period <= u32::MAX, delay <= u32::MAX: either ref+delay < 2^64 and start % period = 0, "
+            "ref+delay-period < start <= ref+delay, written as 8 LE bytes to 0x0990, or the call is rejected before any write); configure_total; "
             "range_errors; flags_match_mode (deactivate first, 0x03 / 0x07 last); cycle_times_written (0x09A0 = period, 0x09A4 iff "
             "Sync01); cycle_arithmetic (offset = time % period, wait = (period-offset)+shift, no panic for EVERY time, period >= 1, "
-            "period+shift < 2^64); configured_group_cycles (end to end). Known finding: reference time + delay >= 2^64 panics in "
-            "debug builds and programs a start time outside the window in release builds (start_time_overflow_checked/_wrapping, "
-            "start_time_window_counterexample).",
+            "period+shift < 2^64); configured_group_cycles (end to end). Fixed finding: reference time + delay >= 2^64 used to panic / wrap; now rejected (start_time_overflow_rejected).",
     "note": "Trusted: Lean kernel; hand translation of configure_dc_sync and the tx_rx_dc tail (validated by running the real async "
             "code through PduTx/PduRx against a register-level responder, both profiles); network failures not modelled. Also "
             "recorded (outside the quantifier): sync0_shift is not range checked (shift_not_range_checked), period 0 divides by zero.",
@@ -201,8 +198,7 @@ PROPS["C17"] = {
     "harness": ["c17"],
     "both_profiles": True,
     "t1_facts": ["dc:", "Dc.lean"],
-    "known_keys_expected": ["c17/nested-junction-wrong-parent", "c17/nested-junction-panic", "c17/inconsistent-panic-nofree",
-                            "c17/inconsistent-panic-topology", "c17/chain-delay-nondc-gap", "c17/port-time-wrap",
+    "known_keys_expected": ["c17/nested-junction-wrong-parent", "c17/chain-delay-nondc-gap", "c17/port-time-wrap",
                             "c17/offset-i64-overflow"],
     "modelled": "ports.rs Ports::{new,set_receive_times,open_ports,entry_port,last_port,next_assignable_port,"
                 "assign_next_downstream_port,port_assigned_to,topology,is_last_port,total_propagation_time,"
@@ -227,7 +223,7 @@ PROPS["C17"] = {
         "build configuration without log/defmt: fmt::debug! evaluates its arguments (debug_print_ports calls topology())",
         "parent_is_true_parent_partial: no junction inside a non-last branch of another junction; no 32-bit wrap between the latches of one DC device",
         "chain_delay_exact_partial: DC-capable devices contiguous in frame order (non-DC only before the first / after the last), pd(upstream) = return delay(downstream) on every hop, no intra-device wrap",
-        "inconsistent_is_error_partial: every device reports >= 1 open port; the one remaining panic site is named in the conclusion",
+        "inconsistent_is_error: full statement since the fix of the topology panics (reports only need u32-typed times)",
         "offset_formula in checked builds presupposes that configure_dc returned (i64 overflow panics are a known finding)",
     ],
 }
@@ -289,7 +285,6 @@ PROPS["C19"] = {
     "lean_modules": ["EcModel.Props.C19"],
     "harness": ["c19"],
     "t1_facts": ["wire layout", "Layouts.lean", "WireMacro.lean"],
-    "known_keys_expected": ["c19/implicit-enum-discriminant"],
     "modelled": "ethercrab-wire-derive: help.rs bit_width_attr; parse_struct.rs parse_struct (width table, pre/post skip, skip, bit_start/"
                 "bit_end/bytes/bit_offset, the three validity errors, total width); generate_struct.rs generate_struct_write/read/"
                 "sized_impl (u8/bool shortcut, one-byte OR-merge with the u16 mask, byte-aligned delegation, buffer zeroing, "
@@ -320,8 +315,9 @@ PROPS["C19"] = {
         "field types obey the trait laws (Lawful: proved for u8..u64, i8..i64, bool and closed under struct nesting) and are not "
         "longer than their declared slot (slotFits; the macro cannot check it: a u32 in `bytes = 2` makes pack panic)",
         "values are representable in the declared width (a u8 in a 3-bit field is < 8); the generated code masks wider values",
-        "enum round trip is proved for variants with explicit in-range discriminants and pairwise distinct discriminants/"
-        "alternatives, and for canonical catch-all payloads (known finding c19/implicit-enum-discriminant for the rest)",
+        "enum round trip is proved for enums whose discriminants and alternatives are pairwise distinct (rustc enforces it only "
+        "for the discriminants; enum_roundtrip_needs_distinct_arms shows the hypothesis is needed) and in range of the repr, "
+        "and for canonical catch-all payloads",
         "buffers are byte strings (every element < 256)",
     ],
 }
@@ -333,11 +329,15 @@ MANIFEST_TEXT["C19"] = {
             "unpack_reads_declared_bits and unpack_ignores_undeclared_bits (any buffer >= PACKED_LEN, no assumption on field "
             "types); unpack_pack (also with trailing bytes); short_buffer_error and pack_to_slice_refuses_short (unconditional); "
             "unpack_never_panics; nested_struct_lawful (the laws are closed under nesting, so depth is unbounded). Enums: "
-            "enum_roundtrip_partial (explicit discriminants), enum_catch_all_roundtrip, undefined_value_error_or_fallback "
-            "(catch-all / default / InvalidValue, ReadBufferTooShort, never a panic). The full enum round trip is FALSE of the code: "
-            "enum_roundtrip_counterexample (#[repr(u8)] enum {A,B,C}: A packs to 0 and 0 unpacks to InvalidValue, B packs to 1 and "
-            "unpacks to A) — known finding. T1: every derived struct/enum of /repo/src is re-extracted each run; layouts_accepted, "
-            "layouts_well_formed, layouts_enums_explicit are re-decided on them.",
+            "enum_roundtrip (EVERY unit variant, explicit or implicit discriminant, with or without catch-all/default/"
+            "alternatives, for pairwise distinct read arms; macro_numbering_is_rustc ties the macro's accumulator constants, "
+            "re-read from parse_enum.rs each run, to rustc's numbering), enum_roundtrip_needs_distinct_arms, "
+            "enum_catch_all_roundtrip, undefined_value_error_or_fallback (catch-all / default / InvalidValue, "
+            "ReadBufferTooShort, never a panic). The former implicit-discriminant defect (read side numbered from 1, "
+            "alternatives advanced the counter) is fixed; its witnesses now round-trip (implicit_discriminants_roundtrip_witness, "
+            "implicit_after_alternatives_witness) and stay in the harness corpus. T1: every derived struct/enum of /repo/src is "
+            "re-extracted each run; layouts_accepted, layouts_well_formed, layouts_enums_explicit, in_crate_types_lawful are "
+            "re-decided on them.",
     "note": "Trusted: Lean kernel; hand translation of the macro's parse/generate code and of impls.rs (validated by compiling "
             "hundreds of generated declarations with the real macro per run and diffing every answer, plus accept/reject agreement "
             "on invalid declarations through the macro's own parse functions); rustc's own checks (types, literal ranges) are "
@@ -691,7 +691,7 @@ PROPS["C10"] = {
     "lean_modules": ["EcModel.Props.C10"],
     "harness": ["c10"],
     "t1_facts": ["SubDeviceState discriminants", "RegisterAddress", "AlControl packed length", "push_state_checks", "WkcSites"],
-    "known_keys_expected": ["c10/summary-or-fold-loses-none", "c10/summary-or-fold-merges-states", "c10/ok-despite-error-indication"],
+    "known_keys_expected": ["c10/ok-despite-error-indication"],
     "modelled": "push_state_checks; SubDeviceGroup::{is_state, wait_for_state, transition_to, request_into_op} (every into_* wrapper "
                 "is one transition_to); SubDeviceRef::request_subdevice_state_nowait; MainDevice::wait_for_state; "
                 "TxRxResponse::{group_state, group_in_single_state, is_in_state, all_op}; SubDeviceState <-> u8; AlControl decode; "
@@ -726,10 +726,10 @@ MANIFEST_TEXT["C10"] = {
             "requests_acknowledged, requests_exactly_members (every datagram of a transition addresses a member; on success the "
             "AL control writes are exactly the members once each with the requested state), refusal_is_error, "
             "stall_is_timeout_error (failing rounds then the deadline => Err(Timeout(StateTransition)) at that event), "
-            "wait_fuel_sufficient, md_wait_ok_implies_reported, states_as_reported, group_state_is_or. Summaries AS CODED: "
-            "all_op_as_coded, is_in_state_as_coded, single_state_as_coded; *_iff_partial under 'no entry is None'; "
-            "all_op_counterexample / is_in_state_merge_counterexample (known finding: OR-fold loses None = 0); *_elem_iff for the "
-            "element-wise versions a fix would switch to. error_indication_ignored_counterexample (known finding: is_state "
+            "wait_fuel_sufficient, md_wait_ok_implies_reported, states_as_reported, group_state_is_or. Summaries (element-wise since "
+            "the fix of the OR-fold): single_state_iff, is_in_state_iff, all_op_iff (all_op r <-> r.states != [] and every entry "
+            "is Op) without any side condition, former_or_fold_witnesses ([Op, None] and [Init, PreOp] now answered correctly). "
+            "error_indication_ignored_counterexample (known finding: is_state "
             "ignores the error bit). T1: state_discriminants, group_constants.",
     "note": "Trusted: Lean kernel; hand translation (validated by diffing result + frames sent on recorded traces of the real "
             "code, incl. the exhaustive summary enumeration through real tx_rx); the trace abstraction (events in send order; a "
@@ -749,8 +749,8 @@ MANIFEST_TEXT["C17"] = {
             "chains on any ports, DC devices contiguous, symmetric forwarding: delay of every DC device = arrival - arrival of the first DC device) and chain_delay_formula (what is computed on any "
             "chain incl. the floor(./2) rounding and the non-DC case); offset_wrapping/offset_checked/offset_formula (0x0920 = now - "
             "latched receive time as two's-complement i64, 0x0928 = delay, for exactly the DC devices, in order); "
-            "first_dc_is_reference; inconsistent_is_error_partial (arbitrary reports with >= 1 open port each: the only possible panic "
-            "is 'no free ports on parent'; inconsistent_is_error_configure_dc: same for the whole configure_dc in release builds); valid_tree_no_panic. Seven known findings, each with a decide-checked counterexample "
+            "first_dc_is_reference; inconsistent_is_error (ARBITRARY reports incl. no open port: never a panic; "
+            "inconsistent_is_error_configure_dc: same for the whole configure_dc); valid_tree_no_panic. Seven known findings, each with a decide-checked counterexample "
             "theorem and a harness key (nested junctions x2, no open port, over-subscribed junction, non-DC gap, 32-bit wrap inside a "
             "device, i64 overflow in debug builds).",
     "note": "Trusted: Lean kernel; hand translation of dc.rs/ports.rs (validated by running the real assign_parent_relationships "
@@ -875,10 +875,10 @@ PROPS["C07"] = {
     "harness": ["c07"],
     "both_profiles": True,
     "t1_facts": ["txrx:", "LEN_MASK", "ETHERCAT_ETHERTYPE", "MAINDEVICE_ADDR", "command constant", "Command::code"],
-    "known_keys_expected": ["c07/wkc-sum-overflow", "c07/sync-no-reference-deadlock"],
+    "known_keys_expected": ["c07/wkc-sum-overflow"],
     "modelled": "SubDeviceGroup::{tx_rx, tx_rx_sync_system_time, tx_rx_dc (up to CycleInfo.dc_system_time), "
                 "process_received_pdi_chunk}, push_state_checks (incl. the 129-per-frame cap), the u16/u32 additions in both "
-                "overflow modes, the re-entrant image lock of tx_rx_sync_system_time, on top of the C04 model of "
+                "overflow modes, the fallback of tx_rx_sync_system_time to tx_rx, on top of the C04 model of "
                 "CreatedFrame::{push_pdu, push_pdu_slice_rest, can_push_pdu_payload, mark_sendable}; the network is a list of "
                 "answer frames, each a list of (data, working counter) as ReceivedPduIter yields them",
     "rule": "one case = one cycle of the real code: variant x frame size x pdi_start x image bytes x read_pdi_len x SubDevice addresses "
@@ -889,7 +889,7 @@ PROPS["C07"] = {
             "AL status bytes, clock values, and 1 case in 8 with a missing/short/long/extra datagram or a lost answer; (sim) real "
             "MainDevice::init -> [configure_dc_sync] -> into_op on simulated segments of 0..16 devices with random PDO sizes (images "
             "0..~700 bytes), then cycles on a second MainDevice with the frame size under test, random device input memory and AL states, "
-            "image read back through io_raw/inputs_raw/outputs_raw; (corpus) boundary cases incl. both known-finding witnesses, the "
+            "image read back through io_raw/inputs_raw/outputs_raw; (corpus) boundary cases incl. the known-finding witness and the witness of the repaired sync deadlock (real spin lock in a child process + deadlock-detecting lock), the "
             "129-check cap (140 SubDevices, 2000-byte frames), sub-minimum frame sizes, a window leaving the address space. "
             "non-trivial = cycle of at least two frames; distinct = distinct case line",
     "assumptions": [
@@ -912,16 +912,17 @@ MANIFEST_TEXT["C07"] = {
             "datagrams, non-empty, <= frame size), dc_first_once + dc_time (exactly one FRMW to the reference at 0x0910 with 8 zero bytes, "
             "first in the first frame; reported time = its answer), inputs_land, outputs_untouched, wkc_sum_partial, "
             "states_in_group_order, frame_count_bound (<= ceil(pdi_len/(cap-28)) + ceil(n/min((cap-16)/14,129)) [+1 clock]), terminates "
-            "(fuel pdi_len+n+2 never exhausted), no_error_when_answered. Proved by an invariant over the loop (induction on fuel) on top "
+            "(fuel pdi_len+n+2 never exhausted; terminates_all_variants for the three entry points), no_error_when_answered. Proved by an invariant over the loop (induction on fuel) on top "
             "of the C04 frame invariant. Tied to the code by regenerated constants/statement shapes and by diffing frames, image and "
             "result of the real cycle (hook-built groups and groups from the real init on the simulated segment) against the model.",
-    "note": "PARTIAL: (1) wkc_sum holds only if the sum fits u16 (wkc_sum_partial); the unchanged code panics in builds with overflow "
+    "note": "PARTIAL: wkc_sum holds only if the sum fits u16 (wkc_sum_partial); the unchanged code panics in builds with overflow "
             "checks / wraps without on lrw_wkc_sum += wkc (wkc_sum_counterexample, wkc_sum_full_false; known finding "
-            "c07/wkc-sum-overflow). (2) tx_rx_sync_system_time terminates only with a DC reference (sync_terminates_partial); without "
-            "one it calls tx_rx while holding the image write lock and never returns (sync_terminates_counterexample; known finding "
-            "c07/sync-no-reference-deadlock, replayed every run on the real spin lock in a child process and on a deadlock-detecting "
-            "lock for every generated case). Trusted: Lean kernel; hand translation (validated on the generated cases only); answers "
-            "abstracted to datagram lists; alloc_frame assumed to succeed.",
+            "c07/wkc-sum-overflow). Repaired: tx_rx_sync_system_time without a DC reference used to call tx_rx while holding the image "
+            "write lock and never returned (fixed: line in KNOWN_FINDINGS.txt); the witness still runs every time on the real spin lock "
+            "in a child process and on a deadlock-detecting lock for every generated case, and any hang is a VIOLATION. Trusted: Lean "
+            "kernel; hand translation (validated on the generated cases only); answers abstracted to datagram lists; alloc_frame "
+            "assumed to succeed; the image lock itself is not modelled (its placement is tied by T1 source shapes and by the "
+            "deadlock-detecting lock of the harness).",
     "technique": "Lean 4 proof (loop invariants by induction on fuel, refinement to an arithmetic plan per pass, reuse of the C04 frame "
                  "invariant) + differential correspondence (hook-built groups, real init on a simulated segment) + independent monitors",
 }
@@ -1017,14 +1018,20 @@ MANIFEST_TEXT["C12"] = {
             "never an error or panic; range_read_contiguous (all calls together return one contiguous prefix of the window, "
             "nothing from end on); range_window_partial (+ range_window_counterexample: words >= 0x8000); "
             "read_raw_exact_partial (+ read_raw_odd_counterexample: start_at halves the byte length, odd lengths lose the last "
-            "byte, eeprom_read::<u8> always fails). Parser side: see the theorems listed in evidence (category_found, parse/encode "
-            "round trips). Tied by regenerated layouts/constants and by diffing every answer of the real parsers against the "
-            "model and against an independent ETG2010 oracle on generated device descriptions.",
-    "note": "Trusted: Lean kernel; hand translation (validated on generated cases); the oracle's reading of ETG2010. Known "
-            "findings (not repaired): odd byte lengths truncated by start_at; windows/categories beyond byte 65535 unreachable "
-            "(panic in debug, wrong bytes in release); size() overflows from 512 Kbit; find_string accepts index = count + 1.",
+            "byte, eeprom_read::<u8> always fails). Against an independent layout spec (EepromSpec.encodeSii: header, categories "
+            "in any order incl. unknown types, End marker): category_found (exact byte extent of every present category), "
+            "category_absent, category_found_counterexample (32 empty categories); round trips sync_managers_roundtrip, "
+            "fmmus_roundtrip, fmmu_mappings_roundtrip (with pad byte), find_string_roundtrip (NUL stripping, non-ASCII -> '?', "
+            "any position in the table) + find_string_one_past_counterexample, identity_roundtrip, mailbox_roundtrip, "
+            "size_roundtrip_partial + size_counterexample; t1_layouts / t1_constants tie the literal offsets to the layouts "
+            "regenerated from /repo. All for any chunk size >= 4 and both build modes, images below 64 KiB.",
+    "note": "Trusted: Lean kernel; hand translation (validated on generated cases); the oracle's reading of ETG2010. PDO lists "
+            "with bit lengths and the General category are tied by the correspondence and the Rust oracle only (no Lean round "
+            "trip). Known findings (not repaired): odd byte lengths truncated by start_at; windows/categories beyond byte 65535 "
+            "unreachable (panic in debug, wrong bytes in release); size() overflows from 512 Kbit; find_string accepts index = "
+            "count + 1.",
     "technique": "Lean 4 proof (loop invariants over chunk assembly; walk induction over encoded categories) + differential correspondence",
 }
 
 # checks that are registered but not yet passing end-to-end are not claimed in MANIFEST.json
-NOT_READY = {"C20": "check still being built in this session (quick tier currently exceeds its time budget)"}
+NOT_READY = {}
